@@ -247,8 +247,14 @@ def shape_check_first(ctx, op, fn, m, per_other=False):
     ok_sides = sorted(sides)[0].endswith(".shape") and sorted(sides)[1].endswith(".shape") and "self.shape" in sides and sides[0] != sides[1]
     if per_other:
         ok_sides = ok_sides and s.get("k") == "for" and pretty(strip(s["iter"])) == fn["params"][1]["name"]
+    # .. and it is made for every operand: nothing decides whether the assertion is evaluated (for mean_inplace: nothing but the walk
+    # over the other tensors)
+    pcs = [it for it in (e4.path_conditions(c, fn["body"], x) or []) if it["kind"] == "if" or not it.get("panics")]   # earlier rejections are fine
+    if pcs:
+        ok_sides = False
+        sides = sides + ["only-under:" + short(pretty(pcs[0]["c"]), 50)]
     ctx.check("R15.2", inst, ok_sides, "shape-assertion-compares:" + "~".join(sides), c.loc(fn, x),
-              "assert_eq_shape!(%s) before the dispatch" % ", ".join(sides))
+              "assert_eq_shape!(%s) before the dispatch, unconditionally" % ", ".join(sides[:2]))
 
 
 def no_shape_write(ctx, ops):
@@ -333,32 +339,37 @@ def linear_algebra(ctx):
         okshape = bool(sh) and len(sh) == 1 and e6.is_call(sh[0], "len", 1) is not None and e6.is_call(sh[0], "len", 1)[0] in (X, M)
     ctx.check("R15.3", "dot", ok, "dot-form-not-sum_j-M_ij*x_j", where, detail, "could not establish dot_i = sum_j M_ij*x_j " + detail)
     ctx.check("R15.3", "dot-shape", okshape, "dot-shape", where, "shape = Single(number of rows)")
-    # ---- transpose
+    # ---- transpose: t[j][i] = d[i][j] for every i < rows, j < cols; t allocated cols x rows (index or enumerate loops)
     fn = ctx.fn(T + "transpose")
     where = c.loc(fn)
-    fors = [x for x in walk(fn["body"]) if x.get("k") == "for"]
-    ok, detail = False, ""
-    if len(fors) == 2:
-        o, i = fors[0], fors[1]
-        ob, ib = pat_binds(o["pat"]), pat_binds(i["pat"])
-        asg = [x for x in walk(i["body"]) if x.get("k") == "assign"]
-        so, si = strip(o["iter"]), strip(i["iter"])
-        full = (so.get("name") == "enumerate" and strip(so["recv"]).get("name") == "iter"
-                and si.get("name") == "enumerate" and strip(si["recv"]).get("name") == "iter"
-                and e4.local_hid(strip(si["recv"])["recv"]) == ob[1][1])
-        if len(asg) == 1 and len(ob) == 2 and len(ib) == 2 and full:
-            l = strip(asg[0]["l"])
-            # transposed[j][i] = x
-            if l.get("k") == "index" and strip(l["b"]).get("k") == "index":
-                j_ = e4.local_hid(strip(l["b"])["i"])
-                i_ = e4.local_hid(l["i"])
-                ok = (j_ == ib[0][1] and i_ == ob[0][1] and e4.local_hid(asg[0]["r"]) == ib[1][1])
-                detail = pretty(asg[0])
+    from .common import index_copy
+    ok, detail, okal = False, "", False
+    darm = [a for x in walk(fn["body"]) if x.get("k") == "match" for a in x["arms"] if e4.arm_variant(a)[0] == "tensor::Data::Double"]
+    if len(darm) == 1 and e4.arm_variant(darm[0])[1]:
+        dn, dh = e4.arm_variant(darm[0])[1][0]
+        ic = index_copy(c, fn, darm[0]["body"], dn, {"%s.len()" % dn: "R", "%s[0].len()" % dn: "C"})
+        if ic is not None and len(ic["target"]) == 2 and len(ic["source"]) == 2 and None not in ic["target"]:
+            a_, b_ = ic["target"]
+            # roles: a ranges over the columns of d, b over its rows (a range loop says so itself; an enumerate counter by what it counts)
+            def role(h):
+                if ic["roles"].get(h):
+                    return ic["roles"][h]
+                src = ic["counters"].get(h)
+                if src is None:
+                    return None
+                if e4.local_hid(src) == dh:
+                    return "R"
+                s0 = strip(src)
+                if s0.get("k") == "index" and e4.local_hid(s0["b"]) == dh:
+                    return "C"
+                if s0.get("k") == "local":      # the row bound by the outer enumerate
+                    return "C"
+                return None
+            ok = (a_ != b_ and ic["source"] == [b_, a_] and e4.local_hid(ic["src_root"]) == dh and role(a_) == "C" and role(b_) == "R")
+            detail = "target[%s][%s] = source[%s][%s]" % (role(a_), role(b_), role(ic["source"][0]), role(ic["source"][1]))
+            okal = ic["alloc"] == ["C", "R"]
     ctx.check("R15.3", "transpose", ok, "transpose-form-not-t[j][i]=d[i][j]", where, detail, "could not establish transposed[j][i] = d[i][j]: " + detail)
-    alloc = [s for s in walk(fn["body"]) if s.get("k") == "let" and s["init"] is not None and strip(s["init"]).get("mac") == "vec"]
-    al = pretty(alloc[0]["init"]) if alloc else ""
-    ctx.check("R15.3", "transpose-alloc", al == "std::vec::from_elem(std::vec::from_elem(0.0, data.len()), data[0].len())",
-              "transpose-allocation:" + al, where, "vec![vec![0.0; rows]; cols]")
+    ctx.check("R15.3", "transpose-alloc", okal, "transpose-allocation", where, "vec![vec![0.0; rows]; cols]")
     lit = [x for x in walk(fn["body"]) if x.get("k") == "struct" and x["path"].endswith("tensor::Tensor")]
     sh = pretty(dict((a, e) for a, e in lit[0]["fs"])["shape"]) if lit else ""
     ctx.check("R15.3", "transpose-shape", sh == "tensor::Shape::Double(transposed.len(), transposed[0].len())", "transpose-shape:" + sh, where, sh)
